@@ -269,7 +269,7 @@ def _run_obligations(ob: Obligations, repo_root: str, static: dict, tier: str, s
             if k not in holder:
                 raise Undecided(f"depends on a failed obligation ({k} unavailable)")
 
-    def matrix_contract(sequence, Config, extra):
+    def matrix_contract(sequence, Config, extra, N=N):
         """The adapter must turn whatever pulser packs into trajectory.interaction_matrix into the
         n x n matrix the backends index by qubit: n x n as is, or the first of k packed n x n
         matrices (pulser >= 1.9 documents (1,N,N), and (2,N,N) = (C3, C6) in XY mode)."""
@@ -328,6 +328,25 @@ def _run_obligations(ob: Obligations, repo_root: str, static: dict, tier: str, s
         return matrix_contract(seq_xy, MPSConfig, {"num_gpus_to_use": 0})
     ob.run("smoke/contract:xy-interaction-matrix-from-trajectory", _c_matrix_xy,
            what="same in XY mode with an SLM mask (masked rows/columns are indexed by qubit)",
+           where="emu_base/pulser_adapter.py:PulserData.get_sequences")
+
+    # register sizes that coincide with the number of matrices pulser packs (2 in XY mode, 1 otherwise): a
+    # "packed or not" decision taken from the leading dimension instead of the rank goes wrong exactly there
+    seq_xy2 = build_sequence(2, "XY")
+
+    def _c_matrix_xy2():
+        from emu_mps import MPSConfig
+        return matrix_contract(seq_xy2, MPSConfig, {"num_gpus_to_use": 0}, N=2)
+    ob.run("smoke/contract:xy-interaction-matrix-2-atoms", _c_matrix_xy2,
+           what="XY mode with exactly 2 atoms: pulser packs (2, 2, 2); the adapter must still hand out the 2 x 2 matrix",
+           where="emu_base/pulser_adapter.py:PulserData.get_sequences")
+    seq2 = build_sequence(2)
+
+    def _c_matrix_2():
+        from emu_sv import SVConfig
+        return matrix_contract(seq2, SVConfig, {"gpu": False}, N=2)
+    ob.run("smoke/contract:interaction-matrix-2-atoms", _c_matrix_2,
+           what="ising mode with 2 atoms (pulser packs (1, 2, 2))",
            where="emu_base/pulser_adapter.py:PulserData.get_sequences")
 
     def _c_nested():
@@ -460,6 +479,13 @@ def _run_obligations(ob: Obligations, repo_root: str, static: dict, tier: str, s
         return e2e(pkg, seq_xy, observables=simple or None)
     ob.run("smoke/e2e-xy:emu_mps:MPSBackend", lambda: xy("emu_mps"),
            what=f"XY (mw_global) {N}-atom run with an SLM mask (masked rows/columns of the interaction matrix)",
+           where="emu_mps/mps_backend.py:MPSBackend.run")
+
+    def xy2(pkg):
+        simple = [o for o in built[pkg] if type(o).__name__ in ("BitStrings", "Occupation")]
+        return e2e(pkg, seq_xy2, observables=simple or None)
+    ob.run("smoke/e2e-xy-2atoms:emu_mps:MPSBackend", lambda: xy2("emu_mps"),
+           what="XY (mw_global) run with exactly 2 atoms (register size == number of packed interaction matrices)",
            where="emu_mps/mps_backend.py:MPSBackend.run")
 
     if tier == "thorough":
